@@ -38,6 +38,11 @@ def check(m, run):
     rl.ly1_canonical(m, run, funcs)
     ra.ax1_helper_calls(m, run, funcs + [m.func('helpers.basis_function_ders'), m.func('helpers.basis_function_all')])
     hodographs(m, run)
+    # the quotient rules multiply by linalg.binomial_coefficient: closed form k!/(i!(k-i)!) or, for loop forms, no floored factor (shared with C16)
+    from . import c16
+    c16.check_binomial(m, run)
+    for key, node in c16.floored_factor_findings(m.func('linalg.binomial_coefficient').node):
+        run.ob('FD1.no-floored-factor', 'linalg.binomial_coefficient :: ' + key, False, 'a running product is multiplied by a floor-divided factor: floor(a/b)*c is not floor(a*c/b)', site(m.func('linalg.binomial_coefficient'), node))
     try:
         from .. import skel_drivers
         skel_drivers.c02(m, run)
@@ -256,8 +261,10 @@ def rq1(m, run, fi, pdim):
     div = [x for x in ast.walk(final.value) if isinstance(x, ast.BinOp) and isinstance(x.op, ast.Div)]
     okd = bool(div) and norm(div[0].right) == '%s%s[-1]' % (W, '[0]' * pdim)
     run.ob('RQ1.quotient-rule', fi.key + ' :: divisor', okd, 'divided by the weight %s%s[-1]' % (W, '[0]' * pdim) if okd else 'result is not divided by the zeroth weight derivative', site(fi, final))
+    # the accumulator is the local the final division reads
+    accs = {x.id for x in ast.walk(final.value) if isinstance(x, ast.Name)} - {W, D} - set(tgt)
     start = [n for n in walk_no_nested(fi.node) if isinstance(n, ast.Assign) and isinstance(n.targets[0], ast.Name) and W in norm(n.value)
-             and all(t in norm(n.value) for t in tgt) and n.targets[0].id == 'v']
+             and all(t in norm(n.value) for t in tgt) and n.targets[0].id in accs]
     oks = bool(start) and norm(start[0].value).replace(' ', '').find('%s[%s]' % (W, ']['.join(tgt))) >= 0
     run.ob('RQ1.quotient-rule', fi.key + ' :: start value', oks, 'starts from A^(%s) = %s[%s]' % (', '.join(tgt), W, ']['.join(tgt)) if oks else 'accumulator does not start from the weighted derivative of the target order', site(fi))
     if n_terms < (1 if pdim == 1 else 3):
@@ -288,13 +295,17 @@ def a34(m, run, fc, fs):
                 pl = to_poly(lvl)
             except NotPoly:
                 continue
-            deg_atoms = [a for a in pl.atoms() if 'degree' in a]
+            sc_ = ra.scope_of(fi)
+            atom_nodes = {norm(x): x for x in ast.walk(lvl) if isinstance(x, (ast.Subscript, ast.Name, ast.Attribute))}
+            deg_atoms = [a for a in pl.atoms() if a in atom_nodes and 'degree' in str(sc_.api_origin(atom_nodes[a]))]
             if len(deg_atoms) != 1:
                 continue
             y = Poly.atom(deg_atoms[0]) - pl          # the derivative order this factor belongs to
             n += 1
             key = '%s :: %s' % (fi.key, norm(bsub))
-            okdeg = pdim == 1 or deg_atoms[0] == 'degree[%d]' % d
+            sc0 = ra.scope_of(fi)
+            dnode = [x for x in ast.walk(lvl) if isinstance(x, (ast.Subscript, ast.Name)) and norm(x) == deg_atoms[0]]
+            okdeg = pdim == 1 or (bool(dnode) and sc0.int_tags(dnode[0], mul) == {d})
             # the loop of x runs over degree - y + 1 functions
             sc = ra.scope_of(fi)
             ds = sc.reaching(x.id, mul) if isinstance(x, ast.Name) else []
